@@ -375,12 +375,9 @@ CheckCase(c) ==
               /\ (c.f \in {"cnt1", "cnt2", "cnt3"} /\ c.mu \in {"dec", "deconly", "zero"} /\ O2.ty.nizk) => ~acc]
 
 \* ---- the tree of cases: root -> (op, key) -> object -> case
-ValMutsV == (NumMuts \ {"none"})
 SaltClasses == {"rnd", "topzero"}
 PtClasses == {"zero", "ff", "rnd", "text"}
 RClasses == {"rnd", "zero", "ff", "topzero"}
-SigKeys == KeyNames
-EncKeys == {k \in KeyNames : TRUE}
 LenObjects(k) == IF k = "A" THEN {[d |-> [len |-> n], salt |-> "rnd", root |-> <<n % 2, 1 - 2 * ((n \div 2) % 2)>>] : n \in Lengths} ELSE {}
 VObjects(k) ==          \* objects: [d, salt, root]
   LenObjects(k) \cup
